@@ -9,7 +9,7 @@
    NOT satisfy the text: the _refuted theorems below are kernel-computed counterexamples, each replayed on the real
    resolve_dependencies and on node by corpus/C31/known_findings.json. *)
 From Coq Require Import List NArith.
-From SF Require Import Base.Str JsDeps.Model JsDeps.Proofs JsDeps.Sound JsDeps.Funs.
+From SF Require Import Base.Str JsDeps.Model JsDeps.Proofs JsDeps.Sound JsDeps.Funs JsDeps.Combined.
 Import ListNotations.
 Local Open Scope string_scope. Local Open Scope list_scope.
 
@@ -127,6 +127,50 @@ Example C31_functions_example :
                 snd s = ["b"; "k"; "b"; "a"] /\ dp w = ["k"; "a"; "b"].
 Proof. split; [vm_compute; reflexivity|]. eexists. eexists. eexists. repeat split; vm_compute; reflexivity. Qed.
 
+(* The combined fragment (Model.v, section 7: in_fragmentC; by construction a superset of in_fragment and in_fragmentF,
+   C31_combined_subsumes).  New part okT A: aliases of inputs in the outermost frame (library + body top level), tracked
+   through identifier-to-identifier assignment as in C31_sound_partial, TOGETHER WITH the alias-free function
+   declarations of C31_sound_functions_partial, provided no alias crosses a function boundary: arguments, initialisers
+   and non-identifier right-hand sides are syntactically not an alias-capable name; function bodies mention only their
+   own names and inputs; names of functions' parameters/vars are not alias-capable.  A = the alias-capable names;
+   every other name (plain variables, self, runtime, function names) never holds the inputs object, so x[i], x.class,
+   if (c) { s = t } ... are unrestricted on them.  C31_sound_alias_set holds for EVERY A that passes the check;
+   in_fragmentT instantiates A with the computed alias_set.
+   Aliasing INSIDE a function declaration is not in any fragment: it is refuted (C31_function_alias_refuted,
+   p_inner_scope) -- the listener puts such an alias into the inner scope, which global_names() subtracts. *)
+Theorem C31_sound_alias_set : forall A inp n lib body c s,
+  okT A lib body = true ->
+  run inp n lib body = Ok c s ->
+  exists w, deps_js lib body = WOk w /\ incl (snd s) (dp w).
+Proof. exact sound_T. Qed.
+Theorem C31_sound_combined_partial : forall inp n lib body c s,
+  in_fragmentC lib body = true ->
+  run inp n lib body = Ok c s ->
+  exists w, deps_js lib body = WOk w /\ incl (snd s) (dp w).
+Proof. exact sound_combined. Qed.
+Theorem C31_total_combined_partial : forall lib body,
+  in_fragmentC lib body = true -> exists w, deps_js lib body = WOk w.
+Proof. exact total_combined. Qed.
+Theorem C31_combined_subsumes : forall lib body,
+  (in_fragmentF lib body = true -> in_fragmentC lib body = true) /\
+  (in_fragment body = true -> in_fragmentC SSkip body = true) /\
+  (in_fragmentT lib body = true -> in_fragmentC lib body = true).
+Proof. exact combined_subsumes. Qed.
+
+(* an alias in the body, a library function called with a field read through the alias, runtime, an index on a plain
+   variable: in the new part of the fragment (and in neither of the two old ones) *)
+Definition ex_cbody : stmt :=
+  SSeq (SVar "x") (SSeq (SExpr (EAssign "x" I))
+  (SSeq (SVarI "s" (ECall (EId "g") (ECons (EDot (EId "x") "a") ENil)))
+  (SSeq (SVarI "t" (EDot (EId "runtime") "outdir"))
+  (SRet (EAdd (EAdd (EId "s") (EIdx (EId "x") (EStr true "k"))) (EDot (EId "t") "length")))))).
+Example C31_combined_example :
+  in_fragmentT ex_lib ex_cbody = true /\ in_fragmentF ex_lib ex_cbody = false /\
+  exists w c s, deps_js ex_lib ex_cbody = WOk w /\ run inp0 60 ex_lib ex_cbody = Ok c s /\
+                incl_b (snd s) (dp w) = true /\ List.length (snd s) = 3.
+Proof. split; [vm_compute; reflexivity|]. split; [vm_compute; reflexivity|].
+  eexists. eexists. eexists. repeat split; vm_compute; reflexivity. Qed.
+
 (* Whole interpolated strings (Model.v, section 6): text, $(parameter reference) and ${body} / $(expr) parts mixed in one
    string, with a common expressionLib.  If every part is in a proved fragment (parts_in_fragment: references as in
    C31_paramref_sound or rooted at self/runtime; JS parts in in_fragmentF with the library, or in in_fragment when there
@@ -157,3 +201,7 @@ Print Assumptions C31_total_partial.
 Print Assumptions C31_sound_functions_partial.
 Print Assumptions C31_total_functions_partial.
 Print Assumptions C31_sound_interpolation_partial.
+Print Assumptions C31_sound_alias_set.
+Print Assumptions C31_sound_combined_partial.
+Print Assumptions C31_total_combined_partial.
+Print Assumptions C31_combined_subsumes.
